@@ -294,7 +294,7 @@ def observe(rule, rnd, with_occ):
                     e["stale_after_edit"] = "pop " + k_
                 break
         e["back"] = alpha_rule(back)
-        e["again"] = L(back.to_ical())
+        e["again"] = L(back.to_ical()) if not e.get("stale_after_edit") else L(f"STALE-AFTER-EDIT({e['stale_after_edit']}):") + L(back.to_ical())
     except Exception as x:   # noqa: BLE001
         e["back"] = [["EXC", [[type(x).__name__]]]]
         e["again"] = []
